@@ -106,8 +106,8 @@ SHAPE_DIZAINES = [P(0), P(1), P("0"), P("1"), ("teensEn", "list10"), ("teensFr",
                   P("9"), P("0"), S("ninetyEn"), S("quatreVingtDixFr"), S("ninetyPreEn"), S("quatreVingtPre9Fr"), P("1")]
 SHAPE_UNITES = [("unitsEn", "list10"), ("unitsFr", "list10")]
 SHAPE_ORDINAL = [P("en"), S("ordZeroFr"), S("ordZeroEn"), P("(.*?)(\\w+)$"), P(2), P(1), P(1), S("ordYEn"), P(1), S("ordIethEn"),
-                 S("ordThEn"), S("ordUnFr"), P("f"), S("ordPremiereFr"), S("ordPremierFr"), S("ordEtUnFr"), S("ordIeme1Fr"),
-                 P(1), P(1), S("ordEFr"), S("ordQuatreVingtsFr"), P(1), S("ordIeme2Fr"), S("ordIeme3Fr")]
+                 S("ordThEn"), S("ordUnFr"), P("f"), S("ordPremiereFr"), S("ordPremierFr"), S("ordUn2Fr"), S("ordIeme1Fr"),
+                 P(1), P(1), S("ordEFr"), S("ordPluralRE"), P(1), S("ordIeme2Fr"), S("ordIeme3Fr")]
 SHAPE_ROMAN = [P(0), S("romanTooSmall"), P(10), S("romI1"), S("romV1"), S("romX1"), P(100), S("romI2"), S("romV2"), S("romX2"),
                P(10), P(10), P(1000), S("romI3"), S("romV3"), S("romX3"), P(100), P(100), ("romanLimit", "int"), S("romanM"),
                P(1000), P(1000), S("romanTooBig")]
@@ -214,6 +214,12 @@ def extract(repo=None):
                         ("centaines", SHAPE_CENTAINES), ("dizaines", SHAPE_DIZAINES), ("unites", SHAPE_UNITES)):
         _match(name, _items(_func(etl.body, name, "enToutesLettres")), shape, env)
     _match("ordinal", _items(_func(tree.body, "ordinal", "Number.py")), SHAPE_ORDINAL, env)
+    import re as _re
+    mre = _re.match(r"^\((\w+(?:\|\w+)*)\)(\w)\$$", env["ordPluralRE"])
+    if not mre:
+        raise _TE("ordinal: the plural-mark expression %r is not of the form (a|b|...)s$" % env["ordPluralRE"])
+    env["ordPluralStems"] = mre.group(1).split("|")
+    env["ordPluralMark"] = mre.group(2)
     rom = _func(tree.body, "roman", "Number.py")
     _match("roman", _items(rom), SHAPE_ROMAN, env)
     env["romanUnits"] = _roman_units(_func(rom.body, "units", "roman"))
@@ -274,14 +280,95 @@ def extract(repo=None):
     nf = _class_method(tT, "Terminal", "numberFormatter", "Terminal.py")
     consts = [n.value for n in ast.walk(nf) if isinstance(n, ast.Constant) and isinstance(n.value, str)]
     fm = [c for c in consts if c.startswith("{:")]
-    if len(fm) != 1 or "f}" not in consts:
-        raise _TE("Terminal.numberFormatter: format specification `\"{:,.\"+precision+\"f}\"` not found")
-    env["formatSpecHead"] = fm[0]
+    if sorted(fm) != ["{:,.", "{:,}"] or "f}" not in consts:
+        raise _TE("Terminal.numberFormatter: `\"{:,}\"` for an int and `\"{:,.\"+precision+\"f}\"` otherwise expected, found %r" % (fm,))
+    env["formatSpecInt"] = "{:,}"
+    env["formatSpecHead"] = "{:,."
     env["formatSpecTail"] = "f}"
     ints = [n.value for n in ast.walk(nf) if isinstance(n, ast.Constant) and isinstance(n.value, int) and not isinstance(n.value, bool)]
-    if sorted(ints) != [0, 2]:
-        raise _TE("Terminal.numberFormatter: precisions 0 (int) and 2 (default) expected, found %r" % (ints,))
+    if ints != [2]:
+        raise _TE("Terminal.numberFormatter: the default precision 2 was expected, found %r" % (ints,))
     env["defaultPrecision"] = 2
+    # numberToRoman / numberToOrdinal guards
+    ntr = _class_method(tT, "Terminal", "numberToRoman", "Terminal.py")
+    ints = [n.value for n in ast.walk(ntr) if isinstance(n, ast.Constant) and isinstance(n.value, int) and not isinstance(n.value, bool)]
+    cmps = [type(o).__name__ for n in ast.walk(ntr) if isinstance(n, ast.Compare) for o in n.ops]
+    if len(ints) != 2 or ints[0] != 0 or sorted(cmps) != ["GtE", "Lt"]:
+        raise _TE("Terminal.numberToRoman: guard `self.value<0 or self.value>=LIMIT` not found (%r, %r)" % (ints, cmps))
+    env["romanGuard"] = ints[1]
+    def _const_int(e):
+        """an int literal, or LIT ** LIT"""
+        if isinstance(e, ast.Constant) and isinstance(e.value, int) and not isinstance(e.value, bool):
+            return e.value
+        if isinstance(e, ast.BinOp) and isinstance(e.op, ast.Pow):
+            a, b = _const_int(e.left), _const_int(e.right)
+            if a is not None and b is not None and 0 <= b <= 100:
+                return a ** b
+        return None
+
+    def _guard(fn, where):
+        """the test of the first `if` of numberToWord / numberToOrdinal: `not isinstance(self.value,int)` possibly
+        or-ed with `self.value<0` and with an upper limit `abs(self.value)>=LIMIT` / `self.value>=LIMIT`;
+        returns (has_negative_test, limit or None)"""
+        first = fn.body[0]
+        if not isinstance(first, ast.If):
+            raise _TE("%s: leading `if` not found" % where)
+        parts = first.test.values if (isinstance(first.test, ast.BoolOp) and isinstance(first.test.op, ast.Or)) else [first.test]
+        if not (isinstance(parts[0], ast.UnaryOp) and isinstance(parts[0].op, ast.Not) and isinstance(parts[0].operand, ast.Call)
+                and getattr(parts[0].operand.func, "id", None) == "isinstance"):
+            raise _TE("%s: `not isinstance(self.value,int)` not found" % where)
+        neg, limit = False, None
+        for c in parts[1:]:
+            if not (isinstance(c, ast.Compare) and len(c.ops) == 1):
+                raise _TE("%s: unexpected guard %s" % (where, ast.unparse(c)))
+            v = _const_int(c.comparators[0])
+            if isinstance(c.ops[0], ast.Lt) and v == 0 and isinstance(c.left, ast.Attribute):
+                neg = True
+            elif isinstance(c.ops[0], ast.GtE) and v is not None and v > 0:
+                limit = v
+            else:
+                raise _TE("%s: unexpected guard %s" % (where, ast.unparse(c)))
+        return neg, limit
+    neg, env["ordLimit"] = _guard(_class_method(tT, "Terminal", "numberToOrdinal", "Terminal.py"), "Terminal.numberToOrdinal")
+    if not neg:
+        raise _TE("Terminal.numberToOrdinal: guard `self.value<0` not found")
+    neg, env["wordLimit"] = _guard(_class_method(tT, "Terminal", "numberToWord", "Terminal.py"), "Terminal.numberToWord")
+    if neg:
+        raise _TE("Terminal.numberToWord: unexpected guard `self.value<0`")
+    # shape of the NO branch of setLemma / real(): which of the defensive repairs are present
+    sl0 = _class_method(tT, "Terminal", "setLemma", "Terminal.py")
+    no_if = None
+    for n in ast.walk(sl0):
+        if isinstance(n, ast.If) and isinstance(n.test, ast.Compare) and isinstance(n.test.comparators[0], ast.Constant) \
+                and n.test.comparators[0].value == "NO" and getattr(n.test.left, "id", None) == "terminalType":
+            no_if = n
+    if no_if is None or not no_if.body or not isinstance(no_if.body[0], ast.If):
+        raise _TE("Terminal.setLemma: the `terminalType==\"NO\"` branch was not found")
+    bad_type = no_if.body[0]
+    tgt = [t.attr for n in bad_type.body if isinstance(n, ast.Assign) for t in n.targets if isinstance(t, ast.Attribute)]
+    if "lemma" not in tgt:
+        raise _TE("Terminal.setLemma: `self.lemma=0` for a lemma of a wrong type not found")
+    env["fixOtherSetsValue"] = "value" in tgt
+    handlers = [h for n in ast.walk(no_if) if isinstance(n, ast.Try) for h in n.handlers
+                if getattr(h.type, "id", None) == "ValueError"]
+    if not handlers:
+        raise _TE("Terminal.setLemma: `except ValueError` around int(self.lemma) not found")
+    env["fixFloatGuarded"] = any(isinstance(n, ast.Try) for n in ast.walk(ast.Module(body=handlers[0].body, type_ignores=[])))
+    rl = _class_method(tT, "Terminal", "real", "Terminal.py")
+    calls = [n for n in ast.walk(rl) if isinstance(n, ast.Call) and isinstance(n.func, ast.Attribute) and n.func.attr == "numberFormatter"]
+    if len(calls) != 1 or len(calls[0].args) != 1:
+        raise _TE("Terminal.real: the call of numberFormatter was not found")
+    a = calls[0].args[0]
+    if isinstance(a, ast.Subscript):
+        env["fixMPrecisionGet"] = False
+    elif isinstance(a, ast.Call) and isinstance(a.func, ast.Attribute) and a.func.attr == "get" and len(a.args) == 1:
+        env["fixMPrecisionGet"] = True
+    else:
+        raise _TE("Terminal.real: unexpected argument of numberFormatter: " + ast.unparse(a))
+    for sep in ("thousandsSepEn", "thousandsSepFr"):
+        if len(env[sep]) != 1 or env[sep] in ".^$*+?{}[]\\|()":
+            raise _TE("%s = %r: a single character that is not special in a regular expression was expected (it is the "
+                      "pattern of re.sub)" % (sep, env[sep]))
     # dOpt defaults of NO
     sl = _class_method(tT, "Terminal", "setLemma", "Terminal.py")
     dflt = None
@@ -312,11 +399,11 @@ STR_SLOTS = ["minusEn", "moinsFr", "grpSep1", "grpSep2", "grpEmpty", "hundredEn"
              "andFr", "oneSufEn", "etUnFr", "hyphen", "seventyEn", "soixanteDixFr", "seventyPreEn", "soixanteFr", "etFr",
              "hyphen7Fr", "eightyEn", "quatreVingtsFr", "eightyPreEn", "quatreVingtPre8Fr", "ninetyEn", "quatreVingtDixFr",
              "ninetyPreEn", "quatreVingtPre9Fr", "ordZeroFr", "ordZeroEn", "ordYEn", "ordIethEn", "ordThEn", "ordUnFr",
-             "ordPremiereFr", "ordPremierFr", "ordEtUnFr", "ordIeme1Fr", "ordEFr", "ordQuatreVingtsFr", "ordIeme2Fr", "ordIeme3Fr",
-             "romanTooSmall", "romanTooBig", "romanM", "thousandsSepEn", "thousandsSepFr", "numberRE", "formatSpecHead",
+             "ordPremiereFr", "ordPremierFr", "ordUn2Fr", "ordIeme1Fr", "ordEFr", "ordPluralRE", "ordPluralMark", "ordIeme2Fr", "ordIeme3Fr",
+             "romanTooSmall", "romanTooBig", "romanM", "thousandsSepEn", "thousandsSepFr", "numberRE", "formatSpecInt", "formatSpecHead",
              "formatSpecTail", "groupEn", "decimalEn", "groupFr", "decimalFr"]
-LIST_SLOTS = ["unitsEn", "unitsFr", "teensEn", "teensFr", "tensEn", "tensFr", "romanUnits"]
-INT_SLOTS = ["maxLong", "romanLimit", "frSingLow", "frSingHigh", "enSingAbs", "enSingDecimals", "defaultPrecision", "defaultMPrecision"]
+LIST_SLOTS = ["unitsEn", "unitsFr", "teensEn", "teensFr", "tensEn", "tensFr", "romanUnits", "ordPluralStems"]
+INT_SLOTS = ["maxLong", "romanLimit", "frSingLow", "frSingHigh", "enSingAbs", "enSingDecimals", "defaultPrecision", "defaultMPrecision", "romanGuard"]
 
 
 def render(env):
@@ -338,6 +425,13 @@ def render(env):
     L.append("")
     for k in INT_SLOTS:
         L.append("def %s : Int := %d" % (k, env[k]))
+    L.append("")
+    L.append("/-- upper limits of numberToWord / numberToOrdinal (`none`: the method has no such guard) -/")
+    for k in ("wordLimit", "ordLimit"):
+        L.append("def %s : Option Int := %s" % (k, "none" if env[k] is None else "some %d" % env[k]))
+    L.append("/-- which defensive repairs of the NO branch of Terminal.setLemma / Terminal.real are present in the code -/")
+    for k in ("fixOtherSetsValue", "fixFloatGuarded", "fixMPrecisionGet"):
+        L.append("def %s : Bool := %s" % (k, "true" if env[k] else "false"))
     L.append("")
     L.append("/-- the three symbol triples (i, v, x) of `roman`, units / tens / hundreds -/")
     L.append("def romanLevels : List (List Char × List Char × List Char) := [%s]" % ", ".join(
